@@ -118,7 +118,7 @@ func c13Mine(c *Ctx, rel string) {
 			}
 		}
 	}
-	r.Floor(K("C13.floor.shared-cells"), len(cells), 6, "cells shared with goroutines")
+	r.Floor(K("C13.floor.shared-cells"), len(cells), 3, "cells shared with goroutines")
 	for _, sc := range cells {
 		kind, detail := c13Classify(c, f, sc, gos)
 		key := K("C13.shared-access." + sc.name)
